@@ -102,6 +102,23 @@ def eval_single(i, scn):
             if valid.all():
                 why = same(back.sel(mode=modes).transpose("time", "mode"), s, rtol=1e-7, what="transform(inverse_transform(s))")
                 ck.m(why is None, "C03", "C03_TransformInverseId", f"{tag}: transform(inverse_transform(s)) != s for {kind} sample coordinates: {why}")
+        # rotators offer both directions as well: transform(inverse_transform(s)) = s within the rotated basis
+        # (Varimax: orthogonal, Promax: oblique - the bi-orthogonal pair of bases)
+        if valid.all() and len(modes) == norms.sizes["mode"] and len(modes) >= 2 and i % 2 == 0:
+            rcls = xe.single.ComplexEOFRotator if cplx else xe.single.EOFRotator
+            for power in (1, 2):
+                try:
+                    with warnings.catch_warnings():
+                        warnings.simplefilter("ignore")
+                        rot = rcls(n_modes=len(modes), power=power, max_iter=3000, rtol=1e-10).fit(m)
+                except RuntimeError:
+                    continue          # the rotation did not converge on this spectrum: nothing to invert
+                s = random_scores(rng, modes, cplx, "new") * float(norms.max())
+                with warnings.catch_warnings():
+                    warnings.simplefilter("ignore")
+                    back = rot.transform(rot.inverse_transform(s))
+                why = same(back.sel(mode=modes).transpose("time", "mode"), s, rtol=1e-6, what="rotator transform(inverse_transform(s))")
+                ck.m(why is None, "C03", "C03_TransformInverseId", f"{tag}: {rcls.__name__}(power={power}) transform(inverse_transform(s)) != s: {why}")
         # normalized switches differ exactly by the per-mode norms
         sn, s0 = m.scores(normalized=True).sel(mode=modes), sc.sel(mode=modes)
         ck.m(same((sn * norms.sel(mode=modes)).transpose(*s0.dims), s0, rtol=1e-9, what="scores") is None, "C03", "C03_NormalizedByNorms",
@@ -189,7 +206,7 @@ def eval_cross(i, scn):
 
 
 def main():
-    a, rep, replay = parse(PROP)
+    a, rep, replay = parse(PROP, aged=True)
     rep.assumptions = ["features with total weight zero (cos(lat)=0) are not valid labels for the reconstruction",
                        "structures (Datasets, lists, MultiIndexes) are covered by C02's full-rank reconstruction on every layout"]
     if replay is not None and replay["scenario"].get("kind") == "scenario":
